@@ -37,8 +37,43 @@ func buildAclFixture(dir string, o harness.Options) error {
 	if err := os.WriteFile(filepath.Join(dir, "open-proposal.id"), []byte(harness.ProposalID(rc)), 0644); err != nil {
 		return err
 	}
+	// ---- further callers who are "everyone else":
+	// the admin of an appchain whose id differs from chainA's only in letter case,
+	twin := harness.ChainAdmin(aclTwinChain)
+	frozenAdm, logoutAdm := harness.DetKey("acl-frozen-admin"), harness.DetKey("acl-logouting-admin")
+	if _, err := w.Exec(w.Transfer(harness.User(0), twin.Addr, "100000000000000000000"), w.Transfer(harness.User(0), frozenAdm.Addr, "100000000000000000000"), w.Transfer(harness.User(0), logoutAdm.Addr, "100000000000000000000")); err != nil {
+		return err
+	}
+	if err := w.RegisterAppchain(twin, aclTwinChain, "ETH", "0x00000000000000000000000000000000000000a2", nil); err != nil {
+		return err
+	}
+	// a governance admin frozen by a vote, and one who was frozen and then asked for his own logout
+	// (pending): neither is an available governance admin
+	for _, k := range []*harness.Key{frozenAdm, logoutAdm} {
+		rc, err := w.Call(harness.AdminKey(0), harness.AddrRole, "RegisterRole", pb.String(k.Addr.String()), pb.String("governanceAdmin"), pb.String(""), pb.String("r"))
+		if err != nil || rc.Status != pb.Receipt_SUCCESS {
+			return fmt.Errorf("RegisterRole: %v %s", err, string(rc.Ret))
+		}
+		if err := w.Approve(harness.ProposalID(rc)); err != nil {
+			return err
+		}
+		rc, err = w.Call(harness.AdminKey(0), harness.AddrRole, "FreezeRole", pb.String(k.Addr.String()), pb.String("r"))
+		if err != nil || rc.Status != pb.Receipt_SUCCESS {
+			return fmt.Errorf("FreezeRole: %v %s", err, string(rc.Ret))
+		}
+		if err := w.Approve(harness.ProposalID(rc)); err != nil {
+			return err
+		}
+	}
+	rc, err = w.Call(logoutAdm, harness.AddrRole, "LogoutRole", pb.String(logoutAdm.Addr.String()), pb.String("r"))
+	if err != nil || rc.Status != pb.Receipt_SUCCESS {
+		return fmt.Errorf("LogoutRole(self) of the frozen admin: %v %s", err, string(rc.Ret))
+	}
 	return nil
 }
+
+// aclTwinChain differs from chainA only in letter case.
+const aclTwinChain = "CHAINA"
 
 func aclPool(openProposal string) []string {
 	p := idPool()
@@ -47,9 +82,15 @@ func aclPool(openProposal string) []string {
 		harness.FullID(harness.ChainA, "s1")+"-"+harness.FullID(harness.ChainB, "s1")+"-1", harness.ChainA+":s2", harness.ChainA+":s1", "ETH", "url")
 	// the "admin of another appchain" role is chainU's admin: nothing of chainU may be named as victim
 	var out []string
-	own := harness.ChainAdmin("chainU").Addr.String()
+	own := []string{harness.ChainAdmin("chainU").Addr.String(), harness.ChainAdmin(aclTwinChain).Addr.String(), harness.DetKey("acl-frozen-admin").Addr.String(), harness.DetKey("acl-logouting-admin").Addr.String(), "chainU", aclTwinChain}
 	for _, x := range p {
-		if strings.Contains(x, "chainU") || strings.Contains(x, own) {
+		mine := false
+		for _, o := range own {
+			if strings.Contains(x, o) {
+				mine = true
+			}
+		}
+		if mine {
 			continue
 		}
 		out = append(out, x)
@@ -120,7 +161,9 @@ func acl17Case(w *vlog.W, a *wargs, id int, rng *rand.Rand, opts harness.Options
 	for i := 0; i < 4; i++ {
 		admins[harness.AdminKey(i).Addr.String()] = true
 	}
-	roles := map[string]*harness.Key{"outsider": harness.User(3), "other-chain-admin": harness.ChainAdmin("chainU"), "gov-admin": harness.AdminKey(1)}
+	roles := map[string]*harness.Key{"outsider": harness.User(3), "other-chain-admin": harness.ChainAdmin("chainU"), "gov-admin": harness.AdminKey(1),
+		"case-twin-chain-admin": harness.ChainAdmin(aclTwinChain), "frozen-gov-admin": harness.DetKey("acl-frozen-admin"), "frozen-gov-admin-with-pending-logout": harness.DetKey("acl-logouting-admin")}
+	everyoneElse := []string{"outsider", "other-chain-admin", "case-twin-chain-admin", "frozen-gov-admin", "frozen-gov-admin-with-pending-logout"}
 	victimA, victimB := harness.FullID(harness.ChainA, "s1"), harness.FullID(harness.ChainB, "s1")
 	victimState := func() string {
 		var sb strings.Builder
@@ -145,12 +188,17 @@ func acl17Case(w *vlog.W, a *wargs, id int, rng *rand.Rand, opts harness.Options
 		var roleName string
 		switch cls {
 		case "internal":
-			roleName = []string{"outsider", "other-chain-admin", "gov-admin"}[rng.Intn(3)]
+			roleName = append([]string{"gov-admin", "gov-admin"}, everyoneElse...)[rng.Intn(2+len(everyoneElse))]
 		default:
-			roleName = []string{"outsider", "other-chain-admin"}[rng.Intn(2)]
+			roleName = everyoneElse[rng.Intn(len(everyoneElse))]
 		}
 		k := roles[roleName]
-		argv, ok := m.WellTyped(rng, pool)
+		argPool := pool
+		if roleName == "case-twin-chain-admin" && rng.Intn(4) != 0 {
+			// this caller is interesting only when the victim is the chain its own id resembles
+			argPool = []string{harness.ChainA, harness.ChainA, harness.ChainA + ":s1", harness.ChainA + ":s2", harness.FullID(harness.ChainA, "s1"), "reason", "0x00000000000000000000000000000000000000a2"}
+		}
+		argv, ok := m.WellTyped(rng, argPool)
 		if !ok {
 			continue
 		}
